@@ -504,6 +504,9 @@ class Gen:
 
     def raw_stmt(self, sc):
         r = self.r
+        if not self.data_items and not self.p['data'] and r.random() < 0.1:
+            # RESTORE (and a READ) in a program that has no DATA at all
+            return {'k': 'raw', 'text': r.choice(('restore', 'restore : read x7%', 'read x7$'))}
         if sc.kind != 'main' and r.random() < 0.2:
             # a RETURN in a procedure that never did a GOSUB
             return {'k': 'raw', 'text': 'return'}
@@ -600,6 +603,15 @@ class Gen:
                 if x['k'] == 'print' and x['items']:
                     x['items'][-1][1] = ''
             return {'k': 'ifl', 'cond': self.bounded(self.cond(sc, 1), sc), 'then': th, 'els': el}
+        if r.random() < 0.1:
+            # IF <compile-time constant> THEN with a one-statement body and no
+            # ELSE - the CONST tracing = 1 / IF tracing THEN idiom (an optimiser
+            # may replace the block by its body) - or with a constant zero
+            ks = [n for n, t in sorted(self.global_consts.items()) if t in '%&!#'] if sc.kind == 'main' else []
+            c = ['var', r.choice(ks)] if ks and r.random() < 0.6 else \
+                r.choice((['lit', '%', 1], ['lit', '%', -1], ['lit', '%', 0],
+                          ['bin', '=', ['lit', '%', 2], ['lit', '%', 2]]))
+            return {'k': 'if', 'arms': [[c, [self.simple(sc)]]], 'els': None}
         arms = []
         for _ in range(r.choice((1, 1, 1, 2, 3))):
             body = self.block(sc, r.randint(0, 3), depth - 1)
@@ -1098,6 +1110,10 @@ class Gen:
         pb = []
         for lb, ub in bs:
             ube = ['lit', '%', ub]
+            if not dyn and self.p['floats'] and r.random() < 0.08:
+                # a constant bound that is not a whole number: it is rounded
+                # (half to even) like any conversion to an integer
+                ube = ['lit', r.choice('!#'), ub - 0.25 if (ub % 2 or r.random() < 0.5) else ub - 0.5]
             if dyn:
                 nv = self.new_scalar(sc, '%')
                 pre.append({'k': 'let', 'lv': ['var', nv], 'e': ['lit', '%', ub]})
@@ -1386,7 +1402,7 @@ class Gen:
     PLANT_KINDS = ('div0_idiv', 'div0_mod', 'div0_fdiv', 'ovf_int', 'ovf_long',
                    'ovf_conv', 'ovf_mul', 'ovf_neg', 'ovf_sngband', 'subscript', 'ill_chr',
                    'ill_chr_hi', 'ill_asc', 'ill_mid', 'ill_space', 'ill_string',
-                   'ill_left', 'ill_instr', 'out_of_data', 'bad_data', 'data_ovf', 'div0_dyndim')
+                   'ill_left', 'ill_instr', 'out_of_data', 'bad_data', 'data_ovf', 'div0_dyndim', 'subscript_dynbounds')
     PLANT_TRAP = {'div0': 'DIVISION_BY_ZERO', 'ovf': 'INVALID_CELL_VALUE',
                   'subscript': 'INDEX_OUT_OF_RANGE', 'ill': 'INVALID_OPERAND_VALUE',
                   'out': 'DEVICE_ERROR', 'bad': 'DEVICE_ERROR', 'data': 'INVALID_CELL_VALUE'}
@@ -1399,6 +1415,7 @@ class Gen:
         kinds = [k for k in self.PLANT_KINDS
                  if (k not in ('out_of_data', 'bad_data', 'data_ovf') or not self.data_items)
                  and (k != 'div0_dyndim' or self.p.get('onerror_mode') in ('goto_next', 'resume_next'))
+                 and (k != 'subscript_dynbounds' or self.p.get('onerror_mode') != 'goto_resume' or True)
                  and (self.p['strings'] or not k.startswith('ill_') or k in ('ill_chr', 'ill_chr_hi'))]
         kind = kind or r.choice(kinds)
         fold = (r.random() < 0.3) if fold is None else fold
@@ -1422,6 +1439,25 @@ class Gen:
 
         ty = '%'
         self.post_plant = []
+        if kind == 'subscript_dynbounds':
+            # a dynamic array whose run-time bounds are inverted in the first,
+            # a middle or the last dimension
+            an = self.fresh('dq', '%')
+            fold = False       # literal bounds would make it a static array
+            rank = r.choice((1, 2, 2, 3))
+            bad_dim = r.randrange(rank)
+            bs = []
+            for d_ in range(rank):
+                if d_ == bad_dim:
+                    bs.append([['lit', '%', 5], operand('%', r.choice((2, 4, -1)))])
+                else:
+                    bs.append([['lit', '%', 1], ['lit', '%', r.randint(1, 3)]])
+            st = {'k': 'dim', 'shared': False, 'name': an, 'ty': '%', 'as': False,
+                  'bounds': bs, 'plant': kind}
+            GOOD.update({2: 6, 4: 6, -1: 6})
+            repairs[:] = [{'k': 'let', 'lv': rp_['lv'], 'e': ['lit', '%', 6]} for rp_ in repairs]
+            self.last_repairs = repairs[-1:] if repairs else None
+            return pre, st
         if kind == 'div0_dyndim':
             # the DIM of a dynamic array fails while its bound is computed; the
             # array is used afterwards (reached only when the error is handled)
@@ -1529,8 +1565,11 @@ class Gen:
                 part = 'arm1'
             elif form == 'case':
                 tests = [['eq', e], ['eq', ['lit', '%', 5]]]
-                if r.random() < 0.5:
+                k = r.random()
+                if k < 0.35:
                     tests.reverse()
+                elif k < 0.7:
+                    tests = [['eq', e]]        # a CASE line with a single test
                 st = {'k': 'select', 'e': ['lit', '%', r.choice((5, 6))],
                       'cases': [[[['eq', ['lit', '%', 99]]], [m1]], [tests, [m2]]],
                       'els': [self.print_stmt(sc, 0)] if r.random() < 0.5 else None}
@@ -1617,6 +1656,22 @@ class Gen:
                 body.insert(j, {'k': 'dim', 'shared': False, 'name': an,
                                 'bounds': [[['lit', '%', 1], ['lit', '%', 3]]], 'ty': '%', 'as': False})
             body.insert(i, g)
+        if self.p['family'] == 'any' and self.p['goto'] and r.random() < 0.15:
+            # a label inside a block that never executes by itself (IF 0 THEN),
+            # reached by a forward GOTO from in front of the block
+            lab = self.fresh('lb')
+            m = self.next_marker()
+            zero = r.choice((['lit', '%', 0], ['bin', '=', ['lit', '%', 1], ['lit', '%', 2]],
+                             ['bin', '-', ['lit', '%', 1], ['lit', '%', 1]]))
+            blk = {'k': 'if', 'arms': [[zero, [{'k': 'label', 'name': lab},
+                                                {'k': 'print', 'marker': m,
+                                                 'items': [[['lit', '$', f'<{m}>'], '']]}]]],
+                   'els': None}
+            g = {'k': 'goto', 'label': lab}
+            if r.random() < 0.5:
+                g = {'k': 'ifl', 'cond': self.cond(sc, 1), 'then': [g], 'els': None}
+            i = r.randint(0, len(body))
+            body[i:i] = [g, blk]
         self.plants = []
         all_repairs = []
         nplants = self.p.get('plants', 1 if self.p['plant'] else 0)
@@ -1860,6 +1915,15 @@ def const_expr(r, depth, strings=False, vars=()):
         a, b = str_pair(r)
         return ['bin', r.choice(('and', 'or', 'and', 'xor')), ['var', r.choice(vars)],
                 ['bin', r.choice(CMP), a, b]]
+    if vars and depth > 0 and r.random() < 0.12:
+        # a chain variable +/- constant +/- constant (left to right): the first
+        # step alone may overflow where the sum of the constants would not
+        v = ['var', r.choice(vars)]
+        ty = r.choice('%&')
+        c1 = r.choice((1, 2, 100, 10000, 32767))
+        c2 = r.choice((c1, c1, 1, c1 + 1))
+        o1, o2 = r.choice((('+', '-'), ('-', '+'), ('+', '+'), ('-', '-')))
+        return ['bin', o2, ['bin', o1, v, ['lit', ty, c1]], ['lit', ty, c2]]
     if vars and r.random() < 0.3:
         v = ['var', r.choice(vars)]
         x = r.random()
